@@ -143,13 +143,17 @@ def main():
     ap = argparse.ArgumentParser()
     ap.add_argument("prop", nargs="?")
     ap.add_argument("--extract", default=os.path.join(ROOT, "build", "extract.json"))
+    ap.add_argument("--only", default=None, help="substring of the function name")
+    ap.add_argument("--prover-only", action="store_true", help="do not fall back to the bounded stand-in (diagnostic)")
     a = ap.parse_args()
     jobs = []
     for fname, benign in (("mutations.json", False), ("benign.json", True)):
         p = os.path.join(ROOT, "selftest", fname)
         if os.path.exists(p):
             for m in json.load(open(p)):
-                if a.prop is None or m["prop"] == a.prop:
+                if (a.prop is None or m["prop"] == a.prop) and (a.only is None or a.only in m["function"]):
+                    if a.prover_only:
+                        m.pop("bounded", None)
                     jobs.append((m, a.extract, benign))
     t0 = time.time()
     with ProcessPoolExecutor(max_workers=16, max_tasks_per_child=1) as ex:
